@@ -196,6 +196,8 @@ def gen_program(r, nulls=False, policy=None):
         T["metadata"] = {"labels": {"app": r.choice(["web", "db"])}}
         if r.random() < 0.3:
             T["metadata"]["annotations"] = {"team": "x"}
+        if r.random() < 0.08:          # a target that names owners itself (C08 / F7 territory)
+            T["metadata"]["ownerReferences"] = [{"apiVersion": "v1", "kind": "Other", "name": "o", "uid": "uid-other"}]
     use_template = r.random() < 0.35
     movable = [k for k in T if k in SAFE_OVERLAY_KEYS]
     moved = r.sample(movable, r.randint(0, min(2, len(movable)))) if r.random() < 0.6 else []
@@ -309,8 +311,19 @@ def create_view(p) -> dict:
     cv = deep_merge(target_of(p), p["createOverlay"] or {})
     cv = deep_merge(cv, forced(p))
     if p["owned"]:
-        cv["metadata"]["ownerReferences"] = [copy.deepcopy(ku.OWNER_REF)]
+        refs = cv["metadata"].get("ownerReferences")
+        if not refs:
+            refs = [copy.deepcopy(ku.OWNER_REF)]
+        elif not any(x.get("uid") == ku.OWNER_REF["uid"] for x in refs):
+            refs = copy.deepcopy(refs) + [copy.deepcopy(ku.OWNER_REF)]
+        cv["metadata"]["ownerReferences"] = refs
     return cv
+
+
+def owner_free(t) -> bool:
+    """the target does not itself set metadata.ownerReferences (never patched from the target: fix F7)"""
+    md = t.get("metadata") if isinstance(t, dict) else None
+    return isinstance(md, dict) and "ownerReferences" not in md
 
 
 def pass_req(p, live):
@@ -510,8 +523,8 @@ def shrink_triple(case: dict, fails, fields=("t", "live", "la"), budget=400):
 TRUSTED = [
     "Lean 4.33.0 kernel; axioms of every theorem ⊆ {propext, Classical.choice, Quot.sound}",
     "models lean/Koreo/Compare.lean (validate.py as repaired by fixes/F9-compare-as-map.diff and "
-    "fixes/F6-typed-set.diff) and lean/Koreo/Reconcile45.lean (reconcile/__init__.py:315-376, 606-715, "
-    "822-854; prepare.py:465-478) hand-transcribed; tied to the code by this run's differential only, "
+    "fixes/F6-typed-set.diff) and lean/Koreo/Reconcile45.lean (reconcile/__init__.py:315-382, 612-721, "
+    "828-860; prepare.py:465-478) hand-transcribed; tied to the code by this run's differential only, "
     "plus the constants regenerated by harness/extractors/Compare45.py",
     "environment: harness/cluster.py (RFC 7386 merge-patch) ~ lean/Koreo/MergePatch.lean; kr8s 0.20.7 APIObject "
     "(create/patch/delete addressing, `raw` re-imposing apiVersion/kind); celpy evaluating the generated literals",
@@ -677,7 +690,7 @@ def run_scenario(ck, drv, p, stored, steps, relation="pass-observables"):
 
 
 def in_c04_domain(p, t) -> bool:
-    return g.wf(t) and g.no_nulls(t) and not p["contradicts"]
+    return g.wf(t) and g.no_nulls(t) and owner_free(t) and not p["contradicts"]
 
 
 def configured_delay(p, before):
@@ -748,16 +761,16 @@ def oracle_c05_pass(p, o):
     if muts != ["PATCH"] or o["o"]["c"] != "retry" or o["o"].get("d") != want_delay:
         return f"update policy patch, drifted object: expected one PATCH and Retry({want_delay}), got {muts} {o['o']}"
     body = payload_core(o["reqs"][0]["b"])
-    want = g.strip(t)
+    want = copy.deepcopy(g.strip(t))
+    want["metadata"].pop("ownerReferences", None)      # the comparison ignores it; only applied on create
     reffed, fix = owner_state(p, before)
     if reffed is False and isinstance(fix, dict):
         from common import from_wire
 
-        want = copy.deepcopy(want)
         want["metadata"]["ownerReferences"] = from_wire(fix["refs"])
     if cn(body) != cn(_no_empty_annotations(want)):
         return "the PATCH does not carry the full target"
-    if g.no_nulls(t) and o["after"] is not None:
+    if g.no_nulls(t) and owner_free(t) and o["after"] is not None:
         try:
             la2 = extract_la(o["after"])
         except Exception:
